@@ -8,10 +8,13 @@ for m in sorted(glob.glob(os.path.join(HERE, "seeded", "*", "*", "meta.json"))):
     pid, n = m.split(os.sep)[-3], m.split(os.sep)[-2]
     notes = d.get("needs", "").strip().splitlines()
     first = next((l.strip(" -#*") for l in notes if len(l.strip()) > 25), "")
-    rows.append((pid, n, ", ".join(d.get("caught_by", [])) or "**missed**", first[:150]))
+    caught = ", ".join(d.get("caught_by", []))
+    if not caught:
+        caught = "(judged outside the domain)" if d.get("judged_out_of_domain") else "**missed**"
+    rows.append((pid, n, caught, first[:150]))
 print("| seeded change | caught by (quick tier) | what it is |")
 print("|---|---|---|")
 for pid, n, c, f in rows:
     print("| %s/%s | %s | %s |" % (pid, n, c, f.replace("|", "/")))
-tot = len(rows); miss = sum(1 for r in rows if "missed" in r[2])
-print("\n%d confirmed seeded changes, %d caught by at least one check, %d missed." % (tot, tot - miss, miss))
+tot = len(rows); miss = sum(1 for r in rows if "missed" in r[2]); out = sum(1 for r in rows if "outside" in r[2])
+print("\n%d confirmed seeded changes (wave 1: <n>, wave 2: b<n>), %d caught by at least one check, %d judged outside the stated domain, %d missed." % (tot, tot - miss - out, out, miss))
